@@ -300,7 +300,8 @@ theorem encodeWf_ok_iff (enc : List F → Except Err (List F)) (r : List F) (wf 
     | ok ww => simp [he, eq_comm]
 
 /-- **The published relation** of one opening: what `check` tests before the value, stated with
-positions: lengths; a Merkle path with the transcript's leaf position that recomputes the root, for
+positions: lengths (of `v`, of the well-formedness vector, and of the encoding of `v` against the
+codeword length the commitment announces); a Merkle path with the transcript's leaf position that recomputes the root, for
 every opened column; the opened columns agree with the encodings of `v` (and, when well-formedness
 is checked, of the well-formedness vector under the coefficients `r`) at the transcript positions.
 `a` is the vector of `tensor`. -/
@@ -311,7 +312,8 @@ def PreRelation (pp : Params F D) (point : Point F) (c : Comm D) (π : Proof F D
   (∀ (j : Nat) col q, π.opening.columns[j]? = some col → o.indices[j]? = some q →
     ∃ p, π.opening.paths[j]? = some p ∧ p.leafIndex = q ∧
       recomputeRoot pp.hs (pp.colHash col) p = c.root) ∧
-  ∃ w b, pp.enc π.opening.v = .ok w ∧ tensor point c.nCols c.nRows = .ok (a, b) ∧
+  ∃ w b, pp.enc π.opening.v = .ok w ∧ w.length = c.nExtCols ∧
+    tensor point c.nCols c.nRows = .ok (a, b) ∧
     (∀ (j : Nat) q, o.indices[j]? = some q → ∃ col x, π.opening.columns[j]? = some col ∧
       w[q]? = some x ∧ dot b col = x) ∧
     (pp.checkWf = true → ∃ wf ww, π.wf = some wf ∧ pp.enc wf = .ok ww ∧
@@ -338,7 +340,7 @@ theorem checkPre_ok_iff (pp : Params F D) (point : Point F) (c : Comm D) (π : P
     simp only
     constructor
     · intro h; cases h
-    · rintro ⟨_, h2, _, w, b, _, _, _, h7⟩
+    · rintro ⟨_, h2, _, w, b, _, _, _, _, h7⟩
       exfalso
       cases hc : pp.checkWf with
       | false =>
@@ -373,12 +375,21 @@ theorem checkPre_ok_iff (pp : Params F D) (point : Point F) (c : Comm D) (π : P
       cases h4
   | ok w =>
     simp only
+    by_cases hlen : w.length = c.nExtCols
+    swap
+    · rw [if_pos (by simpa using hlen)]
+      constructor
+      · intro h; cases h
+      · rintro ⟨_, _, _, w', b, h4, h4', _⟩
+        cases h4
+        exact absurd h4' hlen
+    rw [if_neg (by simpa using hlen)]
     cases hten : tensor point c.nCols c.nRows with
     | error e =>
       simp only
       constructor
       · intro h; cases h
-      · rintro ⟨_, _, _, w', b, _, h5, _⟩
+      · rintro ⟨_, _, _, w', b, _, _, h5, _⟩
         cases h5
     | ok ab =>
       simp only
@@ -388,7 +399,7 @@ theorem checkPre_ok_iff (pp : Params F D) (point : Point F) (c : Comm D) (π : P
         simp only
         constructor
         · intro h; cases h
-        · rintro ⟨_, _, _, w', b, _, _, _, h7⟩
+        · rintro ⟨_, _, _, w', b, _, _, _, _, h7⟩
           exfalso
           rcases hwf' with ⟨hc, w0, hw0, _, rfl⟩ | ⟨hc, rfl⟩
           · obtain ⟨wf1, ww, h1, h2, _⟩ := h7 hc
@@ -408,7 +419,7 @@ theorem checkPre_ok_iff (pp : Params F D) (point : Point F) (c : Comm D) (π : P
         constructor
         · intro h
           have ha : ab.1 = a := by cases h; rfl
-          refine ⟨hv, ?_, hp', w, ab.2, rfl, by rw [← ha], ?_, ?_⟩
+          refine ⟨hv, ?_, hp', w, ab.2, rfl, hlen, by rw [← ha], ?_, ?_⟩
           · intro hc
             rcases hwf' with ⟨_, w0, hw0, hl, _⟩ | ⟨hc', _⟩
             · exact ⟨w0, hw0, hl⟩
@@ -427,14 +438,14 @@ theorem checkPre_ok_iff (pp : Params F D) (point : Point F) (c : Comm D) (π : P
                 obtain ⟨y, hy1, hy2⟩ := h2' (o.r, ww) rfl
                 exact ⟨col, y, h1, hy1, hy2⟩
             · rw [hc] at hc'; cases hc'
-        · rintro ⟨_, _, _, w', b, h4, h5, _, _⟩
+        · rintro ⟨_, _, _, w', b, h4, _, h5, _, _⟩
           cases h5
           rfl
       · rw [hcc]
         simp only
         constructor
         · intro h; cases h
-        · rintro ⟨_, _, _, w', b, h4, h5, h6, h7⟩
+        · rintro ⟨_, _, _, w', b, h4, _, h5, h6, h7⟩
           exfalso
           cases h4; cases h5
           have : checkCols rw b w o.indices π.opening.columns = .ok () := by
@@ -509,7 +520,7 @@ theorem honest_preRelation_gen (pp : Params F D) (point : Point F) (coeffs : Lis
     exact (verifyPath_iff _ _ _ _).1
       (merkle_verify_path pp.hs _ q _ hd (leavesOf_get pp (extOf pp coeffs E k) q hq))
   · refine ⟨E (vecMat b (coeffMat pp.dims coeffs).rows (coeffMat pp.dims coeffs).m), b',
-      h.enc _ (vecMat_length _ _ _), ht, ?_, ?_⟩
+      h.enc _ (vecMat_length _ _ _), h.lin.len _ (vecMat_length _ _ _), ht, ?_, ?_⟩
     · intro j q hqj
       obtain ⟨x, hx1, hx2⟩ := hcol b q (hmem j q hqj)
       refine ⟨colOf (extOf pp coeffs E k).rows q, x, by simp [honestProof, hqj], hx1, ?_⟩
@@ -547,7 +558,7 @@ theorem honest_preRelation_other_iff (pp : Params F D) (point' : Point F) (coeff
     a'' = a' ∧ ∀ q ∈ o.indices, dot b' (colOf (extOf pp coeffs E k).rows q)
       = dot b (colOf (extOf pp coeffs E k).rows q) := by
   constructor
-  · rintro ⟨_, _, _, w, b2, hw, ht2, hcols, _⟩
+  · rintro ⟨_, _, _, w, b2, hw, _, ht2, hcols, _⟩
     simp only at ht2
     rw [ht] at ht2
     cases ht2
